@@ -210,6 +210,21 @@ int main(int argc, char **argv)
         }
         if(mask % 509 == 1) { std::string s; for(auto &n : names) s += n + " "; vp::sample("table {" + s + "} x 4 variants x default handler on/off"); }
     }
+    // ---- large tables (the statement speaks of 1..24 names) and indices with several digits
+    {
+        static const char *BIG[] = {"a", "b", "ab", "ba", "abc", "acb", "aab", "c/d", "a/", "ab/", "c/", "abcd", "bc", "bac", "abb", "b/", "abdc", "abc/", "ca", "cab", "d",
+                                    "dd", "abcde", "abced", "a_rather_long_port_name", "a_rather_long_port_namf"};
+        for(int n : {13, 17, 21, 24, 26}) for(int variant = 0; variant < 3; ++variant, ++top) {
+            if(!vp::mine(top)) continue;
+            std::vector<std::string> names(BIG, BIG + n);
+            if(variant == 1) { names[3] = "ba#100"; names[8] = "a#128/"; }          // indices 0, 99, 100, 101 / 0, 127, 128, 129
+            if(variant == 2) for(int i = 0; i < n; i += 2) if(names[i].back() != '/') names[i] += (i % 4) ? ":i" : ":ii:f";
+            std::string tid = "BIG|n" + std::to_string(n) + "|v" + std::to_string(variant);
+            if(vp::replaying() && vp::ctx().replay.compare(0, tid.size() + 1, tid + "|") != 0) continue;
+            run_table(make_table(names, 0, variant == 1), tid, variant == 2);
+        }
+        vp::bound("tables_large", "first 13/17/21/24/26 names of a 26-name universe, plain / with ba#100 and a#128/ / with argument specs");
+    }
     // ---- nesting: 2 and 3 levels
     {
         const char *PU[] = {"a", "s/", "ab/", "b"};
